@@ -69,6 +69,13 @@ def eval_expr(expr, ops, model: bool):
         if model:
             return M.amap(lambda x, k: x ** int(k.terms[()].const_value()) if k.terms else x ** 0, a, M.from_numeric(karr))
         return a ** karr
+    if tag == "powpoly":
+        # the exponent is itself a polynomial array (a constant one, however it is stored)
+        a = eval_expr(expr[1], ops, model)
+        k = eval_expr(expr[2], ops, model)
+        if model:
+            return M.amap(lambda x, k: x ** int(k.terms[()].const_value()) if k.terms.get(()) is not None else x ** 0, a, k)
+        return a ** k
     raise ValueError(tag)
 
 
@@ -291,6 +298,13 @@ def gen_cases(tier: str, seed: int) -> List[Dict]:
     for shape, karr in powarr_cases:
         a = poly("a", rng.choice([("q0",), ("q0", "q1")]), shape, 1, 4, mode="raw")
         add("pow", [a], ["powarr", 0, karr], tag="-arr%dd" % numpy.array(karr).ndim)
+    # exponents that are constant polynomials: tidy, storing an all-zero non-constant term before / after the constant, 0-d and arrays
+    for shape, kshape, ks in [((2,), (2,), [2, 3]), ((), (), [2]), ((2,), (), [3]), ((1, 2), (2,), [0, 2])]:
+        for kexps in ([[0]], [[1], [0]], [[0], [2]], [[0, 1], [0, 0], [1, 0]]):
+            a = poly("a", rng.choice([("q0",), ("q0", "q1")]), shape, 2, 3, mode="raw")
+            knames = ["q0", "q1"][: len(kexps[0])]
+            kspec = {"kind": "poly", "names": knames, "exps": kexps, "shape": list(kshape), "slots": [list(ks) if not any(e) else [0] * len(ks) for e in kexps], "mode": "raw"}
+            add("pow", [a, kspec], ["powpoly", 0, 1], tag="-polyexp")
     # 6. compositions (depth <= 3 quick / 4 thorough) + ring laws on the same operands
     ncomp = 40 if quick else 600
     for _ in range(ncomp):
